@@ -21,7 +21,8 @@ from __future__ import annotations
 import ast
 import re
 
-from ..flow import Defs, Scope, all_merges, iterations
+from ..cfg import header_parts
+from ..flow import Defs, Scope, all_merges, guard_facts, iterations
 from ..loader import AnalysisError, FuncInfo, dotted, norm, walk_no_nested
 from ..report import Ctx
 from ..selftest import Mutant
@@ -329,6 +330,49 @@ def rule_magnitude(ctx: Ctx) -> None:
         ctx.tri("2-magnitude", f, f.node, numeric, False, f"{conv} produces a number", "", f"{conv} has no float()/int() conversion this rule recognises", key=f"numeric {conv}")
 
 
+def rule_each_quantity_on_its_own(ctx: Ctx) -> None:
+    """(a) memory and time are validated independently of each other: the guard of one quantity's check must not mention another
+    field (an `if memory ... elif time ...` validates the time only when no memory is given);
+    (b) what combine_max reports for a str quantity is one of the OPERANDS' strings, selected - not a re-spelt number (a formatter
+    such as str(timedelta) has its own idea of the format: '1 day, 0:00:00' is refused by the constructor)."""
+    P = ctx.prog
+    post = P.func(f"{MOD}.Resources.__post_init__")
+    cfg = ctx.cfg(post)
+    d = Defs(post)
+    checks = {"time": ("_is_valid_wall_time", "wall_time"), "memory": ("_is_valid_memory", "_convert_to_gb", "_memory")}
+    for q, names in checks.items():
+        nodes = [n for n in cfg.nodes() if any(isinstance(c, ast.Call) and any(w in dotted(c.func) for w in names) for part in header_parts(cfg.stmt[n]) if part is not None for c in ast.walk(part))]
+        if not nodes:
+            ctx.add("5-validated", post, post.node, None, f"UNDECIDED: the validation of `{q}` was not found in __post_init__", key=f"independent {q}")
+            continue
+        ifs_by_test = {id(i_.test): i_ for i_ in ast.walk(post.node) if isinstance(i_, ast.If)}
+
+        def only_rejects(body: list[ast.stmt]) -> bool:
+            return bool(body) and isinstance(body[-1], ast.Raise)
+
+        other = []
+        for n in nodes:
+            for test, truth in cfg.controls(n):
+                i_ = ifs_by_test.get(id(test))
+                # "the earlier check did not reject" is not a restriction: it holds for every valid value
+                if i_ is not None and ((not truth and only_rejects(i_.body)) or (truth and only_rejects(i_.orelse))):
+                    continue
+                t = norm(d.resolve(test))
+                other += [t for o in (STR_QUANTITIES - {q}) if re.search(rf"\bself\.{o}\b", t)]
+        ctx.add("5-validated", post, cfg.stmt[nodes[0]], not other, f"`{q}` is validated whatever the other quantities are" if not other else
+                f"the validation of `{q}` only runs under `{other[0][:50]}`: with that other quantity set a malformed `{q}` string is accepted at construction", key=f"independent {q}")
+    cm = P.func(f"{MOD}.Resources.combine_max")
+    dcm = Defs(cm)
+    for q in sorted(STR_QUANTITIES):
+        stores = [a_ for a_ in ast.walk(cm.node) if isinstance(a_, ast.Assign) and any(isinstance(t, ast.Subscript) and isinstance(t.slice, ast.Constant) and t.slice.value == q for t in a_.targets)]
+        stores += [a_ for a_ in ast.walk(cm.node) if isinstance(a_, ast.Assign) and any(isinstance(t, ast.Name) and t.id == q for t in a_.targets)]
+        formatted = [a_ for a_ in stores if any((isinstance(x, ast.Call) and dotted(x.func) in ("str", "format", "repr")) or isinstance(x, ast.JoinedStr) or (isinstance(x, ast.Call) and isinstance(x.func, ast.Attribute) and x.func.attr in ("format", "strftime", "isoformat"))
+                                                    for x in ast.walk(dcm.resolve(a_.value)))]
+        ctx.add("2-magnitude", cm, formatted[0] if formatted else cm.node, not formatted, f"the `{q}` of the result is one of the operands' strings" if not formatted else
+                f"`{norm(formatted[0])[:70]}` re-spells the winning `{q}` instead of handing back the operand's own string: the spelling of the formatter is not the one the constructor accepts for every value "
+                "(str(timedelta) gives '1 day, 0:00:00' from 24 hours on) - combine_max raises for operands it should combine", key=f"winner-is-operand {q}")
+
+
 def rule_nested_takes_the_maximum(ctx: Ctx) -> None:
     """What a NestedPipeFunc asks for is the maximum over its children: _maybe_max_resources hands back the single child's resources,
     None, or what combine_max returns - not a child's own Resources filled up from the maximum (`child.with_defaults(maximum)` lets
@@ -601,7 +645,16 @@ def rule_rest(ctx: Ctx) -> None:  # noqa: C901, PLR0915
     ddef = Defs(dfn)
     its = [it for it in iterations(dfn.node) if "asdict(self)" in norm(ddef.resolve(it["iter"]))]
     if not its:
-        ctx.add("6-roundtrip", dfn, dfn.node, None, "UNDECIDED: no iteration over asdict(self) recognised", key="dict")
+        # a hand-written field list: it has to name every field of the dataclass
+        lists = [x for x in ast.walk(dfn.node) if isinstance(x, (ast.Tuple, ast.List, ast.Set)) and len(x.elts) >= 3 and all(isinstance(e_, ast.Constant) and isinstance(e_.value, str) for e_ in x.elts)]
+        keys_ = {e_.value for x in lists for e_ in x.elts} | {t.slice.value for a_ in ast.walk(dfn.node) if isinstance(a_, ast.Assign) for t in a_.targets if isinstance(t, ast.Subscript) and isinstance(t.slice, ast.Constant)}
+        flds = set(cls.fields)
+        if lists and keys_ <= flds | {"extra_args"}:
+            gone = sorted(flds - keys_)
+            ctx.add("6-roundtrip", dfn, lists[0], not gone, "dict() names every field of Resources" if not gone else
+                    f"dict() is built from a field list that leaves out {gone}: from_dict(r.dict()) != r for a Resources with that field set (and with_defaults, which goes through dict(), silently resets it)", key="dict")
+        else:
+            ctx.add("6-roundtrip", dfn, dfn.node, None, "UNDECIDED: no iteration over asdict(self) recognised", key="dict")
     else:
         it = its[0]
         tnames = [x.id for x in ast.walk(it["target"]) if isinstance(x, ast.Name)]
@@ -651,7 +704,7 @@ def rule_rest(ctx: Ctx) -> None:  # noqa: C901, PLR0915
 
 
 def check(ctx: Ctx) -> None:
-    for rule in (rule_pure, rule_magnitude, rule_covers, rule_nested_takes_the_maximum, rule_rest):
+    for rule in (rule_pure, rule_magnitude, rule_covers, rule_each_quantity_on_its_own, rule_nested_takes_the_maximum, rule_rest):
         ctx.run(rule)
 
 
